@@ -6,7 +6,7 @@ import os
 import re
 
 V = os.path.dirname(os.path.dirname(os.path.abspath(__file__)))
-HEAD = '### 10.17 Rule index (as of the last commit; generated from the evidence files by tools/mkruleindex.py)'
+HEAD = '### 10.18 Rule index (as of the last commit; generated from the evidence files by tools/mkruleindex.py)'
 
 
 def find_rules(x):
